@@ -26,3 +26,7 @@ open Nitime.C08.Props
 #print axioms partial_eq_inverse
 #print axioms partial_current_counterexample
 #print axioms partial_intended_on_witness
+#print axioms gram_partial_ineq
+#print axioms partial_le_one
+#print axioms mt_coherence_le_one
+#print axioms mt_self_coherence_one
